@@ -338,8 +338,12 @@ namespace rkcommon {
     template <typename T>
     inline void Optional<T>::default_construct_storage_if_needed()
     {
-      if (!has_value())
+      if (!has_value()) {
         new (storage.data()) T();
+        // NOTE: the object is alive from here on (and destroyed by reset() /
+        //       the destructor), also if the assignment that follows throws
+        hasValue = true;
+      }
     }
 
     // Comparison functions ///////////////////////////////////////////////////
